@@ -1,8 +1,9 @@
 #!/bin/bash
-# run every claimed check's thorough command one after the other; one summary line each
+# run every claimed check's thorough command, three side by side; one summary line each
 cd "$(dirname "$0")/.."
 mkdir -p out
-for p in $(python3 -c "import json;print(' '.join(c['property_id'] for c in json.load(open('MANIFEST.json'))['checks']))"); do
-  s=$(date +%s); ./check $p --tier thorough > out/thorough-$p.log 2>&1; rc=$?
-  echo "$p rc=$rc $(( $(date +%s) - s ))s $(grep -c KNOWN-FINDING out/thorough-$p.log) known $(grep -E 'VIOLATION|INCONCLUSIVE' out/thorough-$p.log | head -1 | cut -c1-200)"
-done
+props=$(python3 -c "import json;print(' '.join(c['property_id'] for c in json.load(open('MANIFEST.json'))['checks']))")
+one() { p=$1; s=$(date +%s); ./check $p --tier thorough > out/thorough-$p.log 2>&1; rc=$?
+  echo "$p rc=$rc $(( $(date +%s) - s ))s $(grep -c KNOWN-FINDING out/thorough-$p.log) known $(grep -E 'VIOLATION|INCONCLUSIVE' out/thorough-$p.log | head -1 | cut -c1-200)"; }
+n=0
+for p in $props; do one $p & n=$((n+1)); if [ $((n % 3)) -eq 0 ]; then wait; fi; done; wait
